@@ -147,85 +147,117 @@ end fastThms
 
 /-! ## option wiring -/
 section wiringThms
-variable {K : Type} [Field K] [LinearOrder K] {m : Nat}
+variable {K : Type} [Field K] [LinearOrder K] [IsStrictOrderedRing K] {m : Nat}
 
-/-- the weight matrices a mode stands for, given the ones in force before (`identity` is `pass` in the code, so
-it keeps what is there: none on a fresh object — see `identity_after_custom_fails` for re-used objects) -/
-def modeWeights (opt : Opt K m) (G : List (Mat K (m - 1) (m - 1))) (before : Option (List (Mat K m m))) :
-    Option (List (Mat K m m)) :=
+/-- the weight matrices a mode string stands for: none (identity weights) for `identity`, the option's for
+`custom`, the symmetrised inverse-covariance matrices for the covariance modes -/
+def modeWeights (opt : Opt K m) (G : List (Mat K (m - 1) (m - 1))) : Option (List (Mat K m m)) :=
   match opt.mode with
-  | .identity => before
+  | .identity => none
   | .custom => opt.weights
   | .invSample | .invUnbiased => some (G.map invCovWeight)
 
-/-- the matrices the mode's setter is handed (none for `identity`, which calls no setter) -/
-def handed (opt : Opt K m) (G : List (Mat K (m - 1) (m - 1))) : Option (Option (List (Mat K m m))) :=
-  weightsByMode opt G
+theorem weightsByMode_eq (opt : Opt K m) (G : List (Mat K (m - 1) (m - 1))) :
+    weightsByMode opt G = some (modeWeights opt G) := by
+  unfold weightsByMode modeWeights invCovWeights
+  cases opt.mode <;> rfl
 
-/-- C12 (configuration succeeds exactly when the setter's symmetry validation passes): `identity` always
-succeeds; `custom` / covariance modes succeed iff every matrix handed to `set_weight_matrices` is symmetric
-within `atol` (numpy's float inverse need not be — open finding D9e). -/
-theorem configure_ok_iff (atol : K) (st : GenWse K m) (opt : Opt K m) (G : List (Mat K (m - 1) (m - 1))) :
-    (∃ st', configureGen atol st opt G = .ok st') ↔
-      (∀ w, weightsByMode opt G = some w → validWs atol w = true) := by
+/-- the covariance-mode weight matrix is exactly symmetric (the inverse is symmetrised before use) -/
+theorem invCovWeight_symm (G : Mat K (m - 1) (m - 1)) (i j : Fin m) :
+    (invCovWeight G).get i j = (invCovWeight G).get j i := by
+  unfold invCovWeight symmetrise
+  split
+  · simp only [Mat.get_ofFn]
+    by_cases h : i.val = 0 ∧ j.val = 0
+    · rw [dif_pos h, dif_pos ⟨h.2, h.1⟩]
+    · rw [dif_neg h, dif_neg (fun h' => h ⟨h'.2, h'.1⟩)]
+  · simp only [Mat.get_ofFn]
+    by_cases h : i.val < m - 1 ∧ j.val < m - 1
+    · rw [dif_pos h, dif_pos ⟨h.2, h.1⟩, add_comm]
+    · rw [dif_neg h, dif_neg (fun h' => h ⟨h'.2, h'.1⟩)]
+
+theorem symOk_of_symm (atol : K) (hat : 0 ≤ atol) (W : Mat K m m) (h : ∀ i j, W.get i j = W.get j i) :
+    symOk atol W = true := by
+  unfold symOk
+  simp only [List.all_eq_true, List.mem_finRange, true_implies]
+  intro i j
+  rw [h i j, sub_self]
+  simp [not_lt.mpr hat]
+
+/-- C12 (configuration succeeds): `identity` and the covariance modes are accepted from every earlier state
+and for every outcome count (their matrices always pass the setter's symmetry validation); `custom` is accepted
+exactly when the option's matrices are symmetric within `atol`. -/
+theorem configure_ok (atol : K) (hat : 0 ≤ atol) (st : GenWse K m) (opt : Opt K m)
+    (G : List (Mat K (m - 1) (m - 1))) :
+    (opt.mode ≠ .custom → ∃ st', configureGen atol st opt G = .ok st') ∧
+    (opt.mode = .custom → ((∃ st', configureGen atol st opt G = .ok st') ↔ validWs atol opt.weights = true)) := by
+  have hinv : validWs atol (some (G.map invCovWeight)) = true := by
+    unfold validWs
+    simp only [List.all_eq_true, List.mem_map]
+    rintro W ⟨g, _, rfl⟩
+    exact symOk_of_symm atol hat _ (invCovWeight_symm g)
   unfold configureGen
-  cases hw : weightsByMode opt G with
-  | none => simp
-  | some w =>
-    by_cases hv : validWs atol w = true
+  rw [weightsByMode_eq]
+  unfold modeWeights
+  constructor
+  · intro hne
+    cases hm : opt.mode
+    · simp [validWs]
+    · exact absurd hm hne
+    · simp [hinv]
+    · simp [hinv]
+  · intro hc
+    simp only [hc]
+    by_cases hv : validWs atol opt.weights = true
     · simp [hv]
     · simp [hv]
 
-/-- C12 (mode takes effect, generic loss): whenever `set_from_standard_qtomography_option_data` succeeds, the
-weight matrices in force are the mode's, from any earlier state: the option's for `custom`, the
-inverse-covariance matrices for the covariance modes (any number of outcomes), unchanged (none on a fresh
-object) for `identity`. -/
+/-- C12 (every accepted mode string takes effect, generic loss): whenever
+`set_from_standard_qtomography_option_data` succeeds, the weight matrices in force are the mode's — identity
+weights for `identity`, the option's for `custom`, the inverse-covariance matrices for the covariance modes —
+whatever the object was configured with before (fresh or re-used), for any number of outcomes. -/
 theorem generic_mode_takes_effect (atol : K) (st st' : GenWse K m) (opt : Opt K m)
     (G : List (Mat K (m - 1) (m - 1))) (h : configureGen atol st opt G = .ok st') :
-    st'.weightMatrices = modeWeights opt G st.weightMatrices := by
-  unfold configureGen weightsByMode at h
-  unfold modeWeights
-  cases hm : opt.mode <;> simp only [hm] at h ⊢
+    st'.weightMatrices = modeWeights opt G := by
+  unfold configureGen at h
+  rw [weightsByMode_eq] at h
+  simp only at h
+  split at h
   · injection h with h; subst h; rfl
-  all_goals
-    split at h
-    · injection h with h; subst h; rfl
-    · cases h
+  · cases h
 
-/-- C12 (mode takes effect, fast loss): whenever configuration succeeds — from any earlier state, fresh or
-re-used, gradient required or not — the weight matrices in force are the same as for the generic loss, and
-the cached block matrix `_extend_weight_matrix` is built from exactly these matrices (none when there are
-none); so by `fast_eq_generic_value/grad` the fast value and gradient are the generic ones in every mode. -/
+/-- C12 (every accepted mode string takes effect, fast loss): whenever configuration succeeds — from any
+earlier state, fresh or re-used, gradient required or not — the weight matrices in force are the mode's, the
+same as for the generic loss, and the cached block matrix `_extend_weight_matrix` is built from exactly these
+matrices (none when there are none); so by `fast_eq_generic_value/grad` the fast value and gradient are the
+generic ones in every mode. -/
 theorem fast_mode_takes_effect (atol : K) (st st' : FastWse K m) (opt : Opt K m) (grad : Bool)
     (G : List (Mat K (m - 1) (m - 1))) (h : configureFast atol st opt grad G = .ok st') :
-    st'.weightMatrices = modeWeights opt G st.weightMatrices ∧
-    st'.extW.map (·.blocks) = st'.weightMatrices := by
-  unfold configureFast weightsByMode at h
-  unfold modeWeights
-  cases hm : opt.mode <;> simp only [hm] at h ⊢
+    st'.weightMatrices = modeWeights opt G ∧ st'.extW.map (·.blocks) = modeWeights opt G := by
+  unfold configureFast at h
+  rw [weightsByMode_eq] at h
+  simp only at h
+  split at h
   · injection h with h; subst h
-    cases grad <;> cases hw : st.weightMatrices <;> simp [calcExt, hw]
-  all_goals
-    split at h
-    · injection h with h; subst h
-      first
-        | (cases ho : opt.weights <;> cases grad <;> cases hw : st.weightMatrices <;>
-            simp [setWeightsFast, calcExt, hw, invCovWeights])
-    · cases h
+    cases hw : modeWeights opt G <;> simp [setWeightsFast, calcExt]
+  · cases h
 
-/-- C12 (inverse-covariance modes, every outcome count): the weight matrix is numpy's inverse of the reduced
-covariance in the leading `(m−1)×(m−1)` block and zero in the last row and column. -/
+/-- C12 (inverse-covariance modes, every outcome count): the weight matrix is the symmetrised inverse of the
+reduced covariance in the leading `(m−1)×(m−1)` block and zero in the last row and column. -/
 theorem inv_cov_weight_entries (G : Mat K (m - 1) (m - 1)) (i j : Fin m) :
     (invCovWeight G).get i j =
-      if h : i.val < m - 1 ∧ j.val < m - 1 then G.get ⟨i.val, h.1⟩ ⟨j.val, h.2⟩ else 0 := by
-  unfold invCovWeight
+      if h : i.val < m - 1 ∧ j.val < m - 1 then
+        (G.get ⟨i.val, h.1⟩ ⟨j.val, h.2⟩ + G.get ⟨j.val, h.2⟩ ⟨i.val, h.1⟩) / (1 + 1) else 0 := by
+  unfold invCovWeight symmetrise
   split
   · rename_i hm
     subst hm
     simp only [Mat.get_ofFn]
     by_cases h : i.val = 0 ∧ j.val = 0
     · rw [dif_pos h, dif_pos (by omega)]
-      congr 1 <;> apply Fin.ext <;> simp [h.1, h.2]
+      have hi : (⟨i.val, by omega⟩ : Fin (2 - 1)) = ⟨0, by omega⟩ := Fin.ext h.1
+      have hj : (⟨j.val, by omega⟩ : Fin (2 - 1)) = ⟨0, by omega⟩ := Fin.ext h.2
+      rw [hi, hj]
     · rw [dif_neg h, dif_neg (by omega)]
   · simp only [Mat.get_ofFn]
 
@@ -238,9 +270,10 @@ theorem wre_option_weights_installed (st : WreState K) (w : List K) (lens : List
   unfold configureWre calcExtWeights
   cases fast <;> cases grad <;> cases hw : st.weights <;> simp [hw]
 
-/-- `identity` mode leaves the relative-entropy weights as the constructor set them. -/
-theorem wre_identity_keeps_weights (st : WreState K) (lens : List Nat) (fast grad : Bool) :
-    (configureWre st none lens fast grad).weights = st.weights := by
+/-- C12 (relative entropy, `identity` mode takes effect): whatever weights were in force before, afterwards
+there are none (the value is the unweighted sum). -/
+theorem wre_identity_resets_weights (st : WreState K) (lens : List Nat) (fast grad : Bool) :
+    (configureWre st none lens fast grad).weights = none := by
   unfold configureWre calcExtWeights
   cases fast <;> cases grad <;> cases hw : st.weights <;> simp [hw]
 
@@ -364,14 +397,13 @@ theorem wre_gradient_hasDerivAt_partial (epsq epsp : ℝ) (qs ps ds : List ℝ)
 
 end deriv
 
-/-! ## open defect mirrored by the model (negation witness), and concrete instances of the repaired wiring -/
+/-! ## concrete instances of the repaired wiring -/
 
-/-- OPEN (D9d): `identity` after `custom` keeps the custom weights (generic loss):
-`_set_weights_by_mode("identity")` is `pass`. -/
-theorem identity_after_custom_fails :
+-- `identity` after `custom` resets the weights (generic loss)
+example :
     (((configureGen (K := Rat) (m := 1) 0 ⟨none⟩ (mkOpt .custom (some [Mat.ofFn fun _ _ => 5])) []).toOption.bind
         fun st => (configureGen 0 st (mkOpt .identity none) []).toOption).map
-      fun st => st.weightMatrices.map fun l => l.map fun W => W.get 0 0) = some (some [5]) := by
+      fun st => st.weightMatrices.isNone) = some true := by
   decide +kernel
 
 -- a fresh fast loss configured with custom weights has them in its cache; re-configuration replaces them
@@ -381,13 +413,18 @@ example :
         fun st' => (st.extW.map fun e => e.blocks.map fun W => W.get 0 0,
                     st'.extW.map fun e => e.blocks.map fun W => W.get 0 0)) = some (some [5], some [7]) := by
   decide +kernel
--- a float inverse that is asymmetric beyond atol is rejected by the setter (open finding D9e)
-example : (configureGen (K := Rat) (m := 3) (1/10000000000000) ⟨none⟩ (mkOpt .invSample none)
-    [Mat.ofFn fun i j => if i.val < j.val then 1 else 2]).toOption.isNone = true := by
+-- an asymmetric float inverse is symmetrised and accepted; an asymmetric custom matrix is rejected
+example : ((configureGen (K := Rat) (m := 3) (1/10000000000000) ⟨none⟩ (mkOpt .invSample none)
+    [Mat.ofFn fun i j => if i.val < j.val then 1 else 2]).toOption.map fun st =>
+      st.weightMatrices.map fun l => l.map fun W => W.toList.map (·.toList))
+    = some (some [[[2, 3/2, 0], [3/2, 2, 0], [0, 0, 0]]]) := by
   decide +kernel
--- three outcomes: the inverse fills the leading 2×2 block
+example : (configureGen (K := Rat) (m := 2) (1/10000000000000) ⟨none⟩
+    (mkOpt .custom (some [Mat.ofFn fun i j => if i.val < j.val then 1 else 2])) []).toOption.isNone = true := by
+  decide +kernel
+-- three outcomes: the symmetrised inverse fills the leading 2×2 block
 example : (invCovWeight (K := Rat) (m := 3) (Mat.ofFn fun i j => (i.val : Rat) * 2 + j.val + 1)).toList.map (·.toList)
-    = [[1, 2, 0], [3, 4, 0], [0, 0, 0]] := by
+    = [[1, 5/2, 0], [5/2, 4, 0], [0, 0, 0]] := by
   decide +kernel
 
 -- non-vacuity: the hypotheses of the Taylor identity / fast-path theorems are satisfiable
